@@ -4,11 +4,11 @@ package main
 
 import (
 	"flag"
-	"strings"
 	"fmt"
 	"os"
 	"runtime/debug"
 	"sort"
+	"strings"
 )
 
 type propFn func(w *World, r *Report)
